@@ -6,9 +6,12 @@ from concurrent.futures import ThreadPoolExecutor
 VERIF = os.path.dirname(os.path.dirname(os.path.abspath(__file__)))
 REPO = os.environ.get('VERIF_REPO', '/repo')
 COQDIR = os.path.join(VERIF, 'coq')
-CORR = os.path.join(VERIF, 'corr')
-REPLAYS = os.path.join(VERIF, 'replays')
-EVIDENCE = os.path.join(VERIF, 'evidence')
+# VERIF_REPO / VERIF_OUT exist only for experiments on seeded changes in scratch worktrees (tools/run_seeds_wt.sh):
+# the registered commands never set them, so checks run against /repo and write under /verif.
+OUT = os.environ.get('VERIF_OUT', VERIF)
+CORR = os.path.join(OUT, 'corr')
+REPLAYS = os.path.join(OUT, 'replays')
+EVIDENCE = os.path.join(OUT, 'evidence')
 CORPUS = os.path.join(VERIF, 'corpus')
 
 
